@@ -388,6 +388,24 @@ class FuncVerifier(object):
                 and isinstance(body[0].value.value, str):
             body = body[1:]      # docstring dropped
         outs = self.exec_block(body, st)
+        # vacuity guard: at least one normal exit of the function must be reachable under the contract's own assumptions (requires,
+        # assumed callee postconditions, ghost assertions).  `unsat` here means that what was ASSUMED along every path is contradictory --
+        # every obligation of the function would then be discharged for no reason.  (sat / unknown: fine.)
+        normal = [s for (s, ctl) in outs if ctl is None or ctl[0] == 'return']
+        reachable = 0
+        for s in normal:
+            if any(z3.is_false(x) for x in s.pc):
+                continue
+            sol = z3.Solver()
+            sol.set('timeout', 1500)
+            for h in s.pc:
+                if not has_quantifier(h):
+                    sol.add(h)
+            if sol.check() != z3.unsat:
+                reachable += 1
+        self.reachable_returns = (reachable, len(normal))
+        if normal and reachable == 0:
+            raise ContractError('vacuous: no normal exit of %s is reachable under the assumptions made along its paths' % self.c.key)
         for (s, ctl) in outs:
             if ctl is None:
                 self.at_return(s, None, self.fdef)
@@ -694,6 +712,10 @@ class FuncVerifier(object):
                 st.heap[base.loc] = AV(src.term, av.shape, av.elem)
             else:
                 st.heap[base.loc] = AV(const_array(av.ndim, av.elem, as_num(val)), av.shape, av.elem)
+            return
+        if isinstance(sl, ast.Slice) and sl.step is None and av.ndim == 1:
+            # a[lo:hi] = v on a 1-D array (partial): as a rectangular region
+            self.write_region(base, av, ast.Tuple(elts=[sl], ctx=ast.Load()), val, st, node)
             return
         if self.mask_subscript(sl, st) is not None:
             self.mask_scatter(base, av, self.mask_subscript(sl, st), val, st, node)
@@ -2076,6 +2098,11 @@ class FuncVerifier(object):
             for k_, v_ in enumerate(vals):
                 st.pc.append(z3.Select(term, k_) == v_)
             return st.alloc(AV(term, (z3.IntVal(len(vals)),), dtype))
+        if short == 'asarray' and len(n.args) == 1 and not n.keywords:
+            v = self.pev(n.args[0], st)
+            if isinstance(v, (Ref, View)) and not (isinstance(v, Ref) and not isinstance(st.heap[v.loc], AV)):
+                return v
+            raise OutOfFragment('numpy.asarray of a non-array', n)
         if short == 'array' and not isinstance(n.args[0], ast.List):
             v = self.pev(n.args[0], st)
             if isinstance(v, (Ref, View, AV)) and not (isinstance(v, Ref) and not isinstance(st.heap[v.loc], AV)):
@@ -2281,8 +2308,15 @@ class FuncVerifier(object):
         env_post = dict(env)
         env_post['result'] = result
         spost = SpecEval(self.lib.theory, env_post, st.heap, env, heap_pre, self.lib.preds)
+        spost.fresh_locs = st.fresh_locs
         for e in callee.ensures:
-            st.pc.append(spost.ev_bool(e))
+            ez = spost.ev_bool(e)
+            if z3.is_false(z3.simplify(ez)) or z3.is_true(z3.simplify(ez)):
+                # a clause that evaluates to a constant at the call site is a pure location predicate (fresh_loc / same_loc): this
+                # model keeps in-place locations for `modifies` and allocates results itself, so such clauses carry no information
+                # here -- and must never be ASSUMED as False (that would make the rest of the path vacuous)
+                continue
+            st.pc.append(ez)
         for exc, cond in callee.raises.items():
             st.pc.append(z3.Not(spre.ev_bool(cond)))
         return result
